@@ -723,6 +723,15 @@ pub fn mutations(case: &Case, parts: &Parts, other: Option<&Parts>, density: usi
             v.push(Mutation { name: format!("promise[{j}] {cur:?} <-> {:?} (no-op)", p[j]), alter: Alter::Promises(p), noop: true });
         }
     }
+    // --- number of promises (one appended / the last one removed): the constructor must refuse, never the verifier panic
+    {
+        let mut p = case.promises.clone();
+        p.push(if rot % 2 == 0 { None } else { Some(1) });
+        pushm(&mut v, "one promise appended".into(), Alter::Promises(p));
+        let mut p = case.promises.clone();
+        p.pop();
+        pushm(&mut v, "last promise removed".into(), Alter::Promises(p));
+    }
     // --- bit length
     for n2 in [cfg.n * 2, cfg.n / 2] {
         if n2 >= 1 && n2 <= 64 && n2 != cfg.n && n2 * cfg.cap <= 8192 {
